@@ -76,6 +76,7 @@ Definition ptype (p : ipack) : btype := match ip_blobs p with [] => BData | b ::
 (* findings of check at level Error (warnings are not modelled: they never fail a check) *)
 Inductive err :=
 | EMeta            (* an index or snapshot file cannot be read: check returns Err *)
+| ESnapName        (* FileHashMismatch: a snapshot file whose name is not the hash of its contents *)
 | EPackTimeNotSet | EBlobTypes | EBlobOffset | EPackSizeIndex | ENoPack
 | ETreeLoad        (* ErrorCheckingTrees: a tree is not in the index / does not decrypt / parse *)
 | EFileNoContent | EFileBlobNull | EFileBlobNotInIndex | ENoSubTree | ENullSubTree | ESubTreeNotInIndex
@@ -101,6 +102,7 @@ Section Repo.
 
   Record state := mk_state {
     st_meta_ok : bool;            (* every index and snapshot file decrypts and parses *)
+    st_snap_names_ok : bool;      (* the name of every snapshot file is the hash of its stored bytes *)
     st_packs : list spack;        (* listing of FileType::Pack *)
     st_index : list ifile;        (* the index files *)
     st_roots : list id }.         (* root tree of every snapshot file *)
@@ -297,7 +299,7 @@ Section Repo.
     match check_trees fuel with
     | None => None
     | Some (et, used) =>
-      Some (check_packs ++ et ++
+      Some ((if st_snap_names_ok st then [] else [ESnapName]) ++ check_packs ++ et ++
             flat_map (fun p => if mem_id (ip_id p) missing_packs then []
                                else if mem_id (ip_id p) used then check_pack p else [])
                      index_packs)
@@ -409,5 +411,5 @@ Arguments PBlob {B}. Arguments PHeader {B}.
 Arguments mk_seg {B}. Arguments sg_off {B}. Arguments sg_len {B}. Arguments sg_pl {B}.
 Arguments mk_spack {B}. Arguments sp_id {B}. Arguments sp_size {B}. Arguments sp_hash {B}.
 Arguments sp_trailer {B}. Arguments sp_segs {B}.
-Arguments mk_state {B}. Arguments st_meta_ok {B}. Arguments st_packs {B}. Arguments st_index {B}.
+Arguments mk_state {B}. Arguments st_meta_ok {B}. Arguments st_snap_names_ok {B}. Arguments st_packs {B}. Arguments st_index {B}.
 Arguments st_roots {B}.
